@@ -10,7 +10,7 @@ import multiprocessing
 import os
 import random
 
-from .. import core, findlib as fl, gen_find_c02 as g, gen_find_c02_soft as gs
+from .. import core, findlib as fl, gen_find_c02 as g, gen_find_c02_soft as gs, gen_find_c02_tilt as gt
 
 ATOL = 0.05
 NEGDIAG_TAG = "negative-diagonal-orthorhombic-cell"
@@ -47,7 +47,11 @@ RULE = ("a share of the structures (30 % random, 25 % grid) stores its atoms OUT
         "negative entries (3 quick / 20 thorough). Stream of FLAT patterns (named collinear / planar ones and random rods of 3-5 "
         "atoms along x / y / z / a general direction, random planar groups of 4-6 atoms; atol 0.001-0.1) with 1-3 copies "
         "and 1-3 SOFT near misses: groups bent / puckered perpendicular to the pattern's line / plane so that every pairwise "
-        "distance stays within 0.3-0.85 atol while the best rigid fit has rmsd > 2.3 atol (must not be reported). Non-trivial = a planted copy straddles at least one cell face or the "
+        "distance stays within 0.3-0.85 atol while the best rigid fit has rmsd > 2.3 atol (must not be reported). Stream of copies in NEARLY "
+        "SPECIAL POSES: a special rotation (none, a turn about the search axis, quarter / half turn, the turn reversing the search "
+        "axis, random as control) followed by a turn of theta = (atol/L) 10^u, u in [-2.5, 1.5], about a random axis; patterns: the named ones "
+        "and random ones with one long pair L of 3-80 A (log-uniform), atol 0.001-0.05; exact or perturbed by atol/8; 20 % with "
+        "hints (exact copies), near misses in nearly special poses. Non-trivial = a planted copy straddles at least one cell face or the "
         "structure contains a decoy.")
 
 
@@ -360,6 +364,43 @@ def soft_decoys(ctx, rng, n, pairs, n_tie):
             pairs.append((inp, case, res))
 
 
+def tilted(ctx, rng, n):
+    """copies in nearly special poses with lever arms long against the tolerance (gen_find_c02_tilt).  Clause: a rotated
+    and translated copy (well inside the tolerance) is reported, whatever the rotation is."""
+    made = 0
+    while made < n:
+        hinted = rng.random() < 0.2                # with hints only exact copies (no noise for the hinted atoms to amplify)
+        case = gt.tilt_case(rng, exact=hinted)
+        if case is None:
+            ctx.count("generator:rejected")
+            continue
+        made += 1
+        atol = case["info"]["atol"]
+        hints = (None, None, None)
+        if hinted:
+            h = g.pick_hints(rng, case["pattern"]["pos"])
+            ra, ro, _ = g.hint_levers(case["pattern"]["pos"], h)
+            if ro <= 3 and ra <= 2.5:
+                hints = h
+        inp = inp_of(case, atol=atol, hints=hints, seed=rng.randrange(1 << 30))
+        if rng.random() < 0.2:
+            inp["plain"] = True
+        res, bad = one(inp)
+        ctx.case(inp, nontrivial=True)
+        ctx.count("stream:nearly-special-poses")
+        ctx.count("tilt:atol:%g" % atol)
+        ctx.count("tilt:cross:%d" % g.crossings(case))
+        ctx.count("tilt:diameter:%s" % ("<4" if case["info"]["diameter"] < 4 else "4-20" if case["info"]["diameter"] < 20 else ">=20"))
+        for k in set(case["info"]["kinds"]):
+            ctx.count("tilt:" + k)
+        for x in case["info"]["theta*L/atol"]:
+            ctx.count("tilt:theta*L/atol:%s" % ("<0.1" if x < 0.1 else "0.1-1" if x < 1 else "1-10" if x < 10 else ">=10"))
+        if bad:
+            ctx.fail(bad, inp, observed=res.get("ok", res.get("err")), required="reported key set == planted key set, each once "
+                     "(every planted group is a rigid image of the pattern within atol/4; the pose differs from a special one by the "
+                     "angles info.thetas)", tags=tags_of(case) + ["nearly-special-pose", "hints:" + hint_kind(hints)])
+
+
 # ------------------------------------------------------------------ the check
 
 def tie(ctx, pairs):
@@ -505,6 +546,7 @@ def run(ctx, oracle_only=False, scale=1):
     distorted(ctx, rng, ctx.n(60, 600) * scale, pairs, n_tie)
     # own generator forked from the state of ctx.rng (a function of it, consuming nothing: the streams below stay as they were)
     soft_decoys(ctx, random.Random("c02-soft|%r" % (rng.getstate()[1][:16],)), ctx.n(60, 500) * scale, pairs, n_tie)
+    tilted(ctx, random.Random("c02-tilt|%r" % (rng.getstate()[1][:16],)), ctx.n(160, 1500) * scale)
     # boundary grid: complete in the thorough tier, a random sample in the quick tier
     tasks = grid_tasks()
     if ctx.tier == "quick" and scale == 1:
